@@ -2,6 +2,7 @@ use std::borrow::Cow;
 
 use syn::{parse_quote_spanned, spanned::Spanned};
 
+use crate::ast::Data;
 use crate::codegen;
 use crate::options::{Core, DefaultExpression, ParseAttribute};
 use crate::util::{Callable, Flag, SpannedValue};
@@ -101,7 +102,10 @@ impl InputField {
         // 1. Will we look for this field in the attribute?
         // 1. Is there a locally-defined default?
         // 1. Did the parent define a default?
-        self.default = match (&self.skip, self.default.is_some(), parent.default.is_some()) {
+        // Only the fields of a struct can be taken from the container's default value; the default
+        // of an enum is one of its variants.
+        let container_default = parent.default.is_some() && matches!(parent.data, Data::Struct(_));
+        self.default = match (&self.skip, self.default.is_some(), container_default) {
             // If we have a default, use it.
             (_, true, _) => self.default,
 
